@@ -358,53 +358,88 @@ def run_job(scr, job, small=False, trace_prop=None, timeout=None):
 
         flags = list(job.get("checks", DEFAULT_CHECKS)) + list(job.get("cbmc_flags", []))
         unwind = job.get("unwind", 1)
-        cmd = ["cbmc", cur, "--function", entry, "--json-ui",
-               "--unwind", str(unwind), "--unwinding-assertions"] + flags
+        base = ["cbmc", cur, "--function", entry,
+                "--unwind", str(unwind), "--unwinding-assertions"] + flags
         uws = []
         for l in remaining:
+            # trace-window loops of the harness helper layer (XV_WIN iterations)
+            if "XV_IN_BYTES" in _srcline(l.get("file", ""), l.get("line", 0)):
+                uws.append("%s.%d:%d" % (l["function"], l["id"], job.get("win", 96) + 2))
+                continue
             for pat, n in job.get("unwind_by_func", {}).items():
                 if re.search(pat, l["function"]):
                     uws.append("%s.%d:%d" % (l["function"], l["id"], n))
                     break
         uws += job.get("unwindset", [])
         if uws:
-            cmd += ["--unwindset", ",".join(uws)]
+            base += ["--unwindset", ",".join(uws)]
         if job.get("object_bits"):
-            cmd += ["--object-bits", str(job["object_bits"])]
-        if trace_prop:
-            cmd += ["--trace", "--property", trace_prop]
-        res.cmds.append(" ".join(cmd))
+            base += ["--object-bits", str(job["object_bits"])]
         to = timeout or job.get("timeout", 900)
-        rc, so, se, secs, timed_out = run(cmd, cwd=wd, timeout=to, mem_gb=job.get("mem_gb", 8) * 1.5 + 2)
-        res.solver_s = secs
-        open(os.path.join(wd, "cbmc.json"), "w").write(so)
-        if timed_out:
-            raise ToolError("cbmc timed out after %ds" % to)
-        try:
-            doc = json.loads(so)
-        except ValueError:
-            raise ToolError("cbmc produced no JSON (rc=%s, likely out of memory): %s %s"
-                            % (rc, so[-800:], se[-800:]))
-        got = False
-        for ent in doc:
-            if "messageText" in ent:
-                mt = ent["messageText"]
-                if ent.get("messageType") == "ERROR":
-                    res.warnings.append("ERROR: " + mt)
-                elif "ignoring" in mt or "no body for function" in mt:
-                    res.warnings.append(mt)
-            if "result" in ent:
-                got = True
-                for r in ent["result"]:
-                    ob = Obligation(job["name"], r["property"], r.get("description", ""),
-                                    r["status"], r.get("sourceLocation", {}))
-                    if "trace" in r:
-                        ob.loc = dict(ob.loc or {})
-                        ob.loc["trace"] = r["trace"]
-                    res.obligations.append(ob)
-        if not got:
-            errs = [w for w in res.warnings if w.startswith("ERROR")]
-            raise ToolError("cbmc reported no results (rc=%s) %s %s" % (rc, errs[:3], se[-500:]))
+        memlim = job.get("mem_gb", 8) * 1.5 + 2
+        if trace_prop:
+            # single obligation with counterexample: JSON output
+            cmd = base + ["--json-ui", "--trace", "--property", trace_prop]
+            res.cmds.append(" ".join(cmd))
+            rc, so, se, secs, timed_out = run(cmd, cwd=wd, timeout=to, mem_gb=memlim)
+            res.solver_s = secs
+            open(os.path.join(wd, "cbmc.json"), "w").write(so)
+            if timed_out:
+                raise ToolError("cbmc timed out after %ds" % to)
+            try:
+                doc = json.loads(so)
+            except ValueError:
+                raise ToolError("cbmc produced no JSON (rc=%s): %s %s" % (rc, so[-800:], se[-800:]))
+            for ent in doc:
+                if "result" in ent:
+                    for r in ent["result"]:
+                        ob = Obligation(job["name"], r["property"], r.get("description", ""),
+                                        r["status"], r.get("sourceLocation", {}))
+                        if "trace" in r:
+                            ob.loc = dict(ob.loc or {})
+                            ob.loc["trace"] = r["trace"]
+                        res.obligations.append(ob)
+        else:
+            # Obligation metadata from --show-properties (no solving), verdicts
+            # from the plain-text run: --json-ui builds a counterexample trace
+            # for every failing obligation, including the reachability
+            # canaries, which costs several times the solving time.
+            rc, so, se, _, _ = run(base + ["--show-properties", "--json-ui"], cwd=wd, timeout=300)
+            meta = {}
+            try:
+                for ent in json.loads(so):
+                    for pr in ent.get("properties", []):
+                        meta[pr["name"]] = pr
+            except ValueError:
+                raise ToolError("cbmc --show-properties failed: %s %s" % (so[-500:], se[-500:]))
+            cmd = base
+            res.cmds.append(" ".join(cmd))
+            rc, so, se, secs, timed_out = run(cmd, cwd=wd, timeout=to, mem_gb=memlim)
+            res.solver_s = secs
+            open(os.path.join(wd, "cbmc.txt"), "w").write(so + "\n--- stderr ---\n" + se)
+            if timed_out:
+                raise ToolError("cbmc timed out after %ds" % to)
+            got = False
+            for line in so.splitlines():
+                m = re.match(r"^\[([^\]]+)\] .*: (SUCCESS|FAILURE|UNKNOWN|ERROR)$", line)
+                if m:
+                    got = True
+                    pr = meta.get(m.group(1), {})
+                    res.obligations.append(Obligation(job["name"], m.group(1),
+                                                      pr.get("description", line), m.group(2),
+                                                      pr.get("sourceLocation", {})))
+                elif "ignoring" in line or "no body for function" in line:
+                    res.warnings.append(line.strip())
+            for line in se.splitlines():
+                if "ignoring" in line or "no body for function" in line:
+                    res.warnings.append(line.strip())
+            if not got or rc not in (0, 10):
+                raise ToolError("cbmc gave no verdicts (rc=%s, out of memory or internal error): %s | %s"
+                                % (rc, so[-600:], se[-600:]))
+            missing = set(meta) - set(o.name for o in res.obligations)
+            if missing:
+                raise ToolError("cbmc reported no verdict for %d obligations, e.g. %s"
+                                % (len(missing), sorted(missing)[:3]))
         nobody = [w for w in res.warnings if "no body for function" in w
                   and not any(ok in w for ok in job.get("allow_no_body", []))]
         if nobody:
